@@ -51,12 +51,16 @@ def build_payload(ip: str, port: int, sn: bytes, name: bytes, tail: bytes = b"")
     return ip_bytes_reversed(ip) + (port & 0xFFFFFFFF).to_bytes(4, "little") + sn + bytes([len(name) & 0xFF]) + bytes(name) + bytes(tail)
 
 
-def build_reply(version: int, device_id: int, plaintext: bytes, *, ciphertext: bytes | None = None) -> bytes:
-    """Wrap a reply payload as a V2 (5A5A) or V3 (8370-wrapped) discovery response."""
+def build_reply(version: int, device_id: int, plaintext: bytes, *, ciphertext: bytes | None = None, free: bytes | None = None) -> bytes:
+    """Wrap a reply payload as a V2 (5A5A) or V3 (8370-wrapped) discovery response.
+
+    ``free`` (26 bytes) fills the header fields a discovery client does not read: bytes 8..20 (message id, timestamp), 26..28 (the two
+    bytes after the 48-bit device id) and 28..40."""
     ct = v2.encrypt_payload(plaintext) if ciphertext is None else bytes(ciphertext)
     total = 40 + len(ct) + 16
-    hdr = b"\x5a\x5a\x01\x11" + (total & 0xFFFF).to_bytes(2, "little") + b"\x7a\x80" + bytes(12)
-    hdr += (device_id & (2 ** 48 - 1)).to_bytes(6, "little") + bytes(2) + bytes(12)
+    free = bytes(26) if free is None else bytes(free)
+    hdr = b"\x5a\x5a\x01\x11" + (total & 0xFFFF).to_bytes(2, "little") + b"\x7a\x80" + free[:12]
+    hdr += (device_id & (2 ** 48 - 1)).to_bytes(6, "little") + free[12:14] + free[14:26]
     body = hdr + ct
     inner = body + v2.sign(body)
     if version == 2:
